@@ -157,10 +157,10 @@ func (gp *GenginePool) getGengine() (*gengineWrapper, error) {
 	for {
 		gp.getEngineLock.Lock()
 		//check if there has enough resource in pool
+		gp.runningLock.Lock()
 		numFree := len(gp.freeGengines)
 		verifHook("freelen", int64(numFree), 0)
 		if numFree > 0 {
-			gp.runningLock.Lock()
 			gw := gp.freeGengines[0]
 			gp.freeGengines = gp.freeGengines[1:]
 			verifHook("pop", gw.tag, verifLocked(&gp.runningLock)+2*int64(len(gp.freeGengines)))
@@ -168,12 +168,13 @@ func (gp *GenginePool) getGengine() (*gengineWrapper, error) {
 			gp.getEngineLock.Unlock()
 			return gw, nil
 		}
+		gp.runningLock.Unlock()
 
 		//check if there has addition resource
+		gp.additionLock.Lock()
 		numAddition := len(gp.additionGengines)
 		verifHook("addlen", int64(numAddition), 0)
 		if numAddition > 0 {
-			gp.additionLock.Lock()
 			gw := gp.additionGengines[0]
 			gp.additionGengines = gp.additionGengines[1:]
 			verifHook("pop", gw.tag, verifLocked(&gp.additionLock)+2*int64(len(gp.additionGengines)))
@@ -181,6 +182,7 @@ func (gp *GenginePool) getGengine() (*gengineWrapper, error) {
 			gp.getEngineLock.Unlock()
 			return gw, nil
 		}
+		gp.additionLock.Unlock()
 
 		gp.getEngineLock.Unlock()
 		verifHook("spin", 0, 0)
